@@ -260,7 +260,7 @@ def _explore_task(task, col):
         col.cap("execution cap hit in %s" % cfg["name"])
 
 
-def explore_config(ctx, cfg, bound):
+def explore_config(ctx, cfg, bound, collect=None):
     # run the root execution and shard its children over the pool
     h, probs = run_one(cfg, [])
     sc = h.sched
@@ -272,7 +272,11 @@ def explore_config(ctx, cfg, bound):
     ctx.sample({"config": cfg["name"], "default_schedule_choices": list(sc.choices),
                 "events": [list(map(str, e)) for e in h.events][:20], "points": sc.npoints}, limit=8)
     kids = S.children(sc, [], bound)
-    ctx.pmap(_explore_task, [(cfg, k, bound) for k in kids])
+    tasks = [(cfg, k, bound) for k in kids]
+    if collect is not None:
+        collect.extend(tasks)
+    else:
+        ctx.pmap(_explore_task, tasks)
 
 
 def free_running(ctx, iters):
@@ -324,7 +328,7 @@ def configs(ctx):
         add("versioned", 3, 0, ("commit", "commit", "commit"), "line", 1, 1)
         add("versioned", 2, 1, ("commit", "rollback"), "line", 1, 1)
         add("versioned", 3, 0, ("commit", "rollback", "commit-with"), "sync", 1, 3)
-        add("versioned", 3, 1, ("commit-with", "raise-with", "commit"), "sync", 1, 2)
+        add("versioned", 3, 1, ("commit-with", "raise-with", "commit"), "sync", 0, 2)
         add("btree", 3, 0, ("commit", "commit", "rollback"), "line", 1, 1)
     else:
         add("versioned", 3, 0, ("commit", "commit", "commit"), "line", 0, 2)
@@ -353,8 +357,12 @@ def run(ctx):
     ctx.assume("bounded threads (<= 5 writers, <= 2 readers) and preemptions (<= bound per config)")
     cfgs = configs(ctx)
     ctx.extra["configs"] = [dict(c, preemption_bound=b) for c, b in cfgs]
+    tasks = []
     for cfg, bound in cfgs:
-        explore_config(ctx, cfg, bound)
+        explore_config(ctx, cfg, bound, tasks)
+    # one pool over the DFS shards of all configurations (better balance); biggest first
+    tasks.sort(key=lambda t: len(t[1]))
+    ctx.pmap(_explore_task, tasks)
     free_running(ctx, ctx.pick(150, 1500))
     ctx.counts["states"] = ctx.counts.get("evaluations", 0)
     ctx.extra["states_note"] = "stateless search: states = complete executions (schedules); transitions = scheduling points executed"
